@@ -33,6 +33,7 @@ from dataclasses import dataclass
 
 from happysimulator.core.entity import Entity
 from happysimulator.core.event import Event
+from happysimulator.core.sim_future import SimFuture, _get_active_heap
 from happysimulator.core.temporal import Duration, Instant
 from happysimulator.distributions.constant import ConstantLatency
 from happysimulator.distributions.latency_distribution import LatencyDistribution
@@ -299,45 +300,48 @@ class ConnectionPool(Entity):
             self.name,
         )
 
-        # Create a result holder for the callback pattern
-        result: list[Connection | None] = [None]
-        received = [False]
-
-        def on_connection_available(conn: Connection | None):
-            result[0] = conn
-            received[0] = True
+        # The waiter parks on a future that release() resolves with the
+        # connection it hands over; a single timeout event resolves it with None.
+        handoff = SimFuture()
 
         self._next_waiter_id += 1
         waiter_id = self._next_waiter_id
-        self._waiters.append((waiter_id, start_time, on_connection_available))
+        self._waiters.append((waiter_id, start_time, handoff.resolve))
 
-        # Wait up to timeout, polling periodically
-        # In a real discrete-event simulation, we'd use events for this
-        # But for the generator pattern, we'll yield small delays
-        poll_interval = min(0.1, self._connection_timeout / 10)
-        elapsed = 0.0
+        def on_wait_timeout(_event: Event) -> None:
+            # Leave the queue at once so that a later release() cannot hand a
+            # connection to a waiter that has already given up.
+            if not handoff.is_resolved:
+                self._remove_waiter(waiter_id)
+                handoff.resolve(None)
 
-        while elapsed < self._connection_timeout:
-            yield poll_interval
-            elapsed += poll_interval
+        timer = Event.once(
+            time=self.now + Duration.from_seconds(self._connection_timeout),
+            event_type="_pool_wait_timeout",
+            fn=on_wait_timeout,
+        )
+        heap = _get_active_heap()
+        if heap is not None:
+            heap.push(timer)
 
-            if received[0]:
-                connection = result[0]
-                if connection is not None:
-                    wait_time = (self.now - start_time).to_seconds()
-                    self._total_wait_time += wait_time
-                    logger.debug(
-                        "[%s] Acquired connection after wait: id=%d, wait=%.3fs",
-                        self.name,
-                        connection.id,
-                        wait_time,
-                    )
-                    return connection
-                else:
-                    # Connection was None (shouldn't happen normally)
-                    break
+        # No events are scheduled while waiting: resumed by the hand-off or the timeout
+        while not handoff.is_resolved:
+            yield handoff
+        timer.cancel()
 
-        # Timeout - remove ourselves from waiters
+        connection = handoff.value
+        if connection is not None:
+            wait_time = (self.now - start_time).to_seconds()
+            self._total_wait_time += wait_time
+            logger.debug(
+                "[%s] Acquired connection after wait: id=%d, wait=%.3fs",
+                self.name,
+                connection.id,
+                wait_time,
+            )
+            return connection
+
+        # Timeout (or pool closed) - make sure we are no longer queued
         self._remove_waiter(waiter_id)
         self._timeouts += 1
 
